@@ -46,6 +46,8 @@ type failure struct {
 	Stack string `json:"stack,omitempty"`
 }
 
+func (f *failure) hung() bool { return strings.HasPrefix(f.Key, "hang:") || strings.HasPrefix(f.What, "no answer within") }
+
 type summary struct {
 	Kind        string         `json:"kind"`
 	Evaluations int            `json:"evaluations"`
@@ -61,6 +63,7 @@ func oracle(args []string) {
 	n := fs.Int("n", 2000, "generated cases per generator family")
 	corpus := fs.String("corpus", "", "corpus directory (cases run first)")
 	watchdog := fs.Int("watchdog", 20, "per-case watchdog in seconds")
+	thorough := fs.Bool("thorough", false, "full boundary-value set in the JSON leaf sweep")
 	fs.Parse(args)
 	watchdogSeconds = *watchdog
 	res := hx.Create(filepath.Join(*out, "oracle.jsonl"))
@@ -104,8 +107,22 @@ func oracle(args []string) {
 		run(c)
 	}
 	seeds := loadSeeds()
+	for _, f := range seeds.fails {
+		sum.Evaluations++
+		sum.Dist["seed"]++
+		perKey[f.Key]++
+		if f.hung() {
+			hangs++
+		}
+		enc(f)
+	}
+	if len(seeds.ach) == 0 || len(seeds.json) == 0 || len(seeds.valid) == 0 || len(seeds.batchJ) == 0 {
+		enc(sum)
+		res.Close()
+		return
+	}
 	r := rng.FromEnv(606)
-	for _, c := range deterministicCases(seeds) {
+	for _, c := range deterministicCases(seeds, *thorough) {
 		run(c)
 	}
 	for i := 0; i < *n; i++ {
